@@ -2,6 +2,7 @@ package main
 
 import (
 	"context"
+	"errors"
 	"fmt"
 	"io"
 	"log/slog"
@@ -188,6 +189,9 @@ func (t *memRT) RoundTrip(req *http.Request) (*http.Response, error) {
 		q.Del("bounced")
 		u.RawQuery = q.Encode()
 	}
+	if res, err, done := w.fault(req, &u); done {
+		return res, err
+	}
 	var body io.Reader
 	if req.Body != nil {
 		b, _ := io.ReadAll(req.Body)
@@ -214,6 +218,65 @@ func (t *memRT) RoundTrip(req *http.Request) (*http.Response, error) {
 	return res, nil
 }
 
+// fault modes of the in-memory OP as seen by clients (race tier: error paths).
+//
+//	jwksMode: 0 ok | 1 always 500 | 2 transport error | 3 flapping 500/ok | 4 valid JWKS without the token's kid
+//	          5 slow | 6 200 with a body that is not JSON
+//	errMode (every endpoint except discovery and /keys): 0 ok | 1 500 | 2 400 OAuth error | 3 transport error | 4 flapping
+func status(req *http.Request, code int, ctype, body string) *http.Response {
+	rec := httptest.NewRecorder()
+	if ctype != "" {
+		rec.Header().Set("Content-Type", ctype)
+	}
+	rec.WriteHeader(code)
+	rec.WriteString(body)
+	res := rec.Result()
+	res.Request = req
+	return res
+}
+
+func (w *world) fault(req *http.Request, u *url.URL) (*http.Response, error, bool) {
+	if strings.HasSuffix(u.Path, "/keys") {
+		switch w.jwksMode.Load() {
+		case 1:
+			return status(req, 500, "", "boom"), nil, true
+		case 2:
+			return nil, errors.New("memRT: connection refused"), true
+		case 3:
+			if w.faultCount.Add(1)%2 == 1 {
+				return status(req, 500, "", "boom"), nil, true
+			}
+		case 4:
+			return status(req, 200, "application/json", w.otherJWKS), nil, true
+		case 5:
+			time.Sleep(3 * time.Millisecond)
+		case 6:
+			return status(req, 200, "application/json", "<html>not json</html>"), nil, true
+		}
+		return nil, nil, false
+	}
+	if strings.HasSuffix(u.Path, "openid-configuration") {
+		return nil, nil, false
+	}
+	m := w.errMode.Load()
+	if m == 4 {
+		if w.faultCount.Add(1)%2 == 1 {
+			m = 1
+		} else {
+			m = 0
+		}
+	}
+	switch m {
+	case 1:
+		return status(req, 500, "", "boom"), nil, true
+	case 2:
+		return status(req, 400, "application/json", `{"error":"invalid_grant","error_description":"injected"}`), nil, true
+	case 3:
+		return nil, errors.New("memRT: connection reset"), true
+	}
+	return nil, nil, false
+}
+
 func stopRedirect(_ *http.Request, _ []*http.Request) error { return http.ErrUseLastResponse }
 
 // ---- world: everything one case can touch
@@ -234,8 +297,13 @@ type world struct {
 	backend *opfix.Fixture
 	bounce  atomic.Bool
 	bounced atomic.Int64
-	rts     [3]*memRT
-	clients [3]*http.Client // [0] = httphelper.DefaultHTTPClient
+	// fault injection (race tier)
+	jwksMode   atomic.Int32
+	errMode    atomic.Int32
+	faultCount atomic.Int64
+	otherJWKS  string
+	rts        [3]*memRT
+	clients    [3]*http.Client // [0] = httphelper.DefaultHTTPClient
 	// caller-supplied slices
 	interceptors []op.HttpInterceptor
 	atOpts       []op.AccessTokenVerifierOpt
